@@ -185,6 +185,9 @@ func libServeGoroutines() []string {
 	return out
 }
 
+// stopShard: once a 15 s watchdog has fired there is no point in paying it again for every further case of the shard
+var stopShard bool
+
 func runCase(r *mon.Rec, famName string, idx int) {
 	rng := r.Rand("c14."+famName, idx)
 	v6 := famName == "server6"
@@ -211,7 +214,7 @@ func runCase(r *mon.Rec, famName string, idx int) {
 	var mu sync.Mutex
 	var recs []*hrec
 	endCh := make(chan struct{})
-	var hwg sync.WaitGroup
+	active := 0 // handlers currently running (guarded by mu; a WaitGroup would be misused: Add concurrent with Wait)
 	plan := map[int]string{}
 	for _, it := range items {
 		plan[it.nonce] = it.release
@@ -234,18 +237,33 @@ func runCase(r *mon.Rec, famName string, idx int) {
 		}
 	}
 	enter := func(nonce int, peer net.Addr, snap func() string, enc func() []byte) {
-		hwg.Add(1)
-		defer hwg.Done()
 		h := &hrec{nonce: nonce, entry: snap(), encIn: string(enc())}
 		if peer != nil {
 			h.peer = peer.String()
 		}
 		mu.Lock()
+		active++
 		recs = append(recs, h)
 		mu.Unlock()
+		defer func() {
+			mu.Lock()
+			active--
+			mu.Unlock()
+		}()
 		wait(nonce)
 		h.exit = snap()
 		h.encOut = string(enc())
+	}
+	waitHandlers := func() {
+		for dl := time.Now().Add(20 * time.Second); time.Now().Before(dl); {
+			mu.Lock()
+			a := active
+			mu.Unlock()
+			if a == 0 {
+				return
+			}
+			time.Sleep(100 * time.Microsecond)
+		}
 	}
 	serveDone := make(chan struct{})
 	var serveErr error
@@ -287,15 +305,42 @@ func runCase(r *mon.Rec, famName string, idx int) {
 	early := false
 	for i := 0; i < stopAt; i++ {
 		it := items[i]
-		if !conn.InjectOr(sconn.Datagram{B: append([]byte{}, it.b...), From: it.from, Nonce: it.nonce, Class: it.class}, serveDone) {
-			early = true
+		// generous watchdog: the loop must come back to read the next datagram although handlers are still running
+		abort := make(chan struct{})
+		tm := time.AfterFunc(15*time.Second, func() { close(abort) })
+		go func() {
+			select {
+			case <-serveDone:
+				tm.Stop()
+				select {
+				case <-abort:
+				default:
+					close(abort)
+				}
+			case <-abort:
+			}
+		}()
+		ok := conn.InjectOr(sconn.Datagram{B: append([]byte{}, it.b...), From: it.from, Nonce: it.nonce, Class: it.class}, abort)
+		tm.Stop()
+		if !ok {
+			select {
+			case <-serveDone:
+				early = true
+			default:
+				close(endCh)
+				waitHandlers()
+				closeSrv()
+				bad("serve-loop-blocked", "after %d datagrams the serving loop did not read the next datagram for 15 s while handlers were still running (handlers must run concurrently with the loop)", fed)
+				stopShard = true
+				return
+			}
 			break
 		}
 		fed++
 	}
 	if early {
 		close(endCh)
-		hwg.Wait()
+		waitHandlers()
 		bad("serve-returned-early", "Serve returned (%v) after %d of %d datagrams although neither a read failed nor the server was closed; the last datagram was of class %s", serveErr, fed, stopAt, items[max(fed-1, 0)].class)
 		return
 	}
@@ -303,7 +348,7 @@ func runCase(r *mon.Rec, famName string, idx int) {
 	case <-serveDone:
 		if stopKind != "read-error" {
 			close(endCh)
-			hwg.Wait()
+			waitHandlers()
 			bad("serve-returned-early", "Serve returned (%v) before Close was called", serveErr)
 			return
 		}
@@ -312,7 +357,14 @@ func runCase(r *mon.Rec, famName string, idx int) {
 	if stopKind == "close" {
 		// all fed datagrams have been read; make sure the loop is back in ReadFrom before closing (a real Close can
 		// arrive at any time; datagrams already read must still be dispatched)
-		conn.WaitReads(fed + 1)
+		if !conn.WaitReadsTimeout(fed+1, 15*time.Second) {
+			close(endCh)
+			waitHandlers()
+			closeSrv()
+			bad("serve-loop-blocked", "after the last of %d datagrams the serving loop did not return to reading for 15 s while a handler was still running", fed)
+			stopShard = true
+			return
+		}
 		closeSrv()
 	}
 	select {
@@ -341,7 +393,7 @@ func runCase(r *mon.Rec, famName string, idx int) {
 		time.Sleep(200 * time.Microsecond)
 	}
 	close(endCh)
-	hwg.Wait()
+	waitHandlers()
 	if stopKind == "read-error" && !errors.Is(serveErr, errScripted) {
 		bad("serve-error", "Serve returned %v, want the read error", serveErr)
 		return
@@ -433,7 +485,7 @@ func TestCheck(t *testing.T) {
 	}
 	n := r.Pick(3000, 100000)
 	for i := 0; i < n; i++ {
-		if r.Mine(i) {
+		if r.Mine(i) && !stopShard {
 			runCase(r, []string{"server4", "server6"}[i%2], i)
 		}
 	}
